@@ -271,8 +271,8 @@ def isvalidcdr3(string):
         return (
             isvalidaa(string) and (string[0] == "C") and (string[-1] in ["F", "W", "C"])
         )
-    # if 'string' is not of string type (e.g. nan) it is not valid
-    except TypeError:
+    # if 'string' is not of string type (e.g. nan) or is empty it is not valid
+    except (TypeError, IndexError, KeyError):
         return False
 
 
